@@ -94,7 +94,10 @@ type Decoder struct {
 	simple bool
 	refer  decoderRefer
 	ref    []structInfo
-	Error  error
+	// pendingRef is a referenced item whose index has been consumed but which has not been
+	// converted yet (see ptrDecoder).
+	pendingRef interface{}
+	Error      error
 	LongType
 	RealType
 	MapType
@@ -323,19 +326,8 @@ func (dec *Decoder) LastReferenceIndex() int {
 
 // ReadReference to p.
 func (dec *Decoder) ReadReference(p interface{}) {
-	index := dec.ReadInt()
-	if index < 0 || index >= len(dec.refer.ref) {
-		if dec.Error == nil {
-			dec.Error = DecodeError("hprose/io: reference index " + strconv.Itoa(index) + " out of range")
-		}
-		return
-	}
-	o := dec.refer.Read(index)
-	if o == nil {
-		// a placeholder: the referenced item has no value that could be shared
-		if dec.Error == nil {
-			dec.Error = DecodeError("hprose/io: reference index " + strconv.Itoa(index) + " does not refer to a value")
-		}
+	o, ok := dec.readReferenceObject()
+	if !ok {
 		return
 	}
 	src := reflect.TypeOf(o)
@@ -348,6 +340,30 @@ func (dec *Decoder) ReadReference(p interface{}) {
 			Destination: dest,
 		}
 	}
+}
+
+// readReferenceObject reads a reference index and returns the referenced item.
+func (dec *Decoder) readReferenceObject() (o interface{}, ok bool) {
+	if o = dec.pendingRef; o != nil {
+		// the index was already read by the pointer decoder
+		dec.pendingRef = nil
+		return o, true
+	}
+	index := dec.ReadInt()
+	if index < 0 || index >= len(dec.refer.ref) {
+		if dec.Error == nil {
+			dec.Error = DecodeError("hprose/io: reference index " + strconv.Itoa(index) + " out of range")
+		}
+		return nil, false
+	}
+	if o = dec.refer.Read(index); o == nil {
+		// a placeholder: the referenced item has no value that could be shared
+		if dec.Error == nil {
+			dec.Error = DecodeError("hprose/io: reference index " + strconv.Itoa(index) + " does not refer to a value")
+		}
+		return nil, false
+	}
+	return o, true
 }
 
 // ResetReader reuse decoder instance by specifying another reader.
